@@ -19,8 +19,9 @@ fn write_archive(dir: &Path, bands: &Value) {
     for b in bands.as_array().unwrap() {
         let bdir = dir.join(format!("b{:04}", b["band"].as_u64().unwrap()));
         std::fs::create_dir_all(bdir.join("i/00000")).unwrap();
-        std::fs::write(bdir.join("BANDHEAD"), "{\"start_time\":0,\"band_format_version\":\"0.6.3\",\"format_flags\":[]}\n").unwrap();
-        let mut entries = Vec::new();
+        let version = b["band_format_version"].as_str().unwrap_or("0.6.3");
+        std::fs::write(bdir.join("BANDHEAD"), format!("{{\"start_time\":0,\"band_format_version\":{},\"format_flags\":[]}}\n", serde_json::to_string(version).unwrap())).unwrap();
+        let mut hunks: std::collections::BTreeMap<u64, Vec<Value>> = std::collections::BTreeMap::new();
         for e in b["entries"].as_array().unwrap() {
             let kind = e["kind"].as_str().unwrap();
             let mut j = json!({"apath": e["path"], "kind": kind, "mtime": e["mtime"][0], "mtime_nanos": e["mtime"][1],
@@ -39,12 +40,14 @@ fn write_archive(dir: &Path, bands: &Value) {
                     j["addrs"] = json!([{"hash": h, "len": len}]);
                 }
             }
-            entries.push(j);
+            hunks.entry(e["hunk"].as_u64().unwrap_or(0)).or_default().push(j);
         }
-        let data = serde_json::to_vec(&entries).unwrap();
-        std::fs::write(bdir.join("i/00000/000000000"), snap::raw::Encoder::new().compress_vec(&data).unwrap()).unwrap();
+        for (n, entries) in &hunks {
+            let data = serde_json::to_vec(entries).unwrap();
+            std::fs::write(bdir.join(format!("i/00000/{:09}", n)), snap::raw::Encoder::new().compress_vec(&data).unwrap()).unwrap();
+        }
         if b["closed"].as_bool().unwrap_or(true) {
-            std::fs::write(bdir.join("BANDTAIL"), "{\"end_time\":0,\"index_hunk_count\":1}\n").unwrap();
+            std::fs::write(bdir.join("BANDTAIL"), format!("{{\"end_time\":0,\"index_hunk_count\":{}}}\n", hunks.len())).unwrap();
         }
     }
 }
@@ -69,11 +72,44 @@ pub fn run(sc: &Value) -> Value {
         }
         _ => {}
     }
+    // damage: [{file: archive-relative path | "block:<entry path>", how: delete|empty|garbage}]
+    if let Some(list) = sc["damage"].as_array() {
+        for d in list {
+            let f = d["file"].as_str().unwrap();
+            let target = if let Some(epath) = f.strip_prefix("block:") {
+                // the block of the named file entry: recompute its hash
+                let mut found = None;
+                for b in sc["bands"].as_array().unwrap() {
+                    for e in b["entries"].as_array().unwrap() {
+                        if e["path"] == epath {
+                            let data = bytes_for(e["class"].as_u64().unwrap_or(1), e["size"].as_u64().unwrap_or(0) as usize);
+                            let h = hex::encode(blake2_rfc::blake2b::blake2b(64, &[], &data).as_bytes());
+                            found = Some(arch.join("d").join(&h[..3]).join(&h));
+                        }
+                    }
+                }
+                found.unwrap()
+            } else {
+                arch.join(f)
+            };
+            match d["how"].as_str().unwrap() {
+                "delete" => std::fs::remove_file(&target).unwrap(),
+                "empty" => std::fs::write(&target, b"").unwrap(),
+                "altered" => {
+                    let old = snap::raw::Decoder::new().decompress_vec(&std::fs::read(&target).unwrap()).unwrap_or_else(|_| vec![0u8; 8]);
+                    let flipped: Vec<u8> = old.iter().map(|b| b ^ 0x01).collect();
+                    std::fs::write(&target, snap::raw::Encoder::new().compress_vec(&flipped).unwrap()).unwrap()
+                }
+                _ => std::fs::write(&target, b"\xff\xfe garbage \x00\x01").unwrap(),
+            }
+        }
+    }
     let before_all = snapshot(&sandbox);
     let outside = |snap: &[Value]| -> Vec<Value> { snap.iter().filter(|v| !v["path"].as_str().unwrap().starts_with("/dest")).cloned().collect() };
     let band = sc["restore_band"].as_u64();
     let overwrite = sc["overwrite"].as_bool().unwrap_or(false);
     let subtree = sc["subtree"].as_str().map(|s| s.to_string());
+    let validate_quick = sc["validate_quick"].as_bool();
     let r = catch_unwind(AssertUnwindSafe(|| {
         let rt = tokio::runtime::Builder::new_current_thread().enable_all().build().unwrap();
         rt.block_on(async {
@@ -87,7 +123,14 @@ pub fn run(sc: &Value) -> Value {
             };
             let rr = restore(&archive, &dest, opts, rm.clone()).await;
             let errs = rm.take_errors().iter().map(|e| format!("{e}")).collect::<Vec<_>>();
-            json!({"result": match &rr { Ok(_) => "Ok".to_string(), Err(e) => format!("Err:{e:?}") }, "errors": errs})
+            let mut out = json!({"result": match &rr { Ok(_) => "Ok".to_string(), Err(e) => format!("Err:{e:?}") }, "errors": errs});
+            if let Some(quick) = validate_quick {
+                let vm = TestMonitor::arc();
+                let vr = archive.validate(&ValidateOptions { skip_block_hashes: quick }, vm.clone()).await;
+                out["validate_ok"] = json!(vr.is_ok());
+                out["validate_errors"] = json!(vm.take_errors().iter().map(|e| format!("{e}")).collect::<Vec<_>>());
+            }
+            out
         })
     }));
     let after_all = snapshot(&sandbox);
